@@ -319,3 +319,49 @@ package container
 //@   requires wf(c)
 //@   modifies c.compartments, c.offset
 //@   ensures wf(c) && clen(c) == old(clen(c))
+
+//@ func (*Container).CompileData
+//@   requires wf(c)
+//@   assume bounded(c)
+//@   modifies c.compartments, c.offset
+//@   ensures wf(c) && len(r0) == old(clen(c)) && clen(c) == old(clen(c))
+//@   ensures r0 == elems(c.compartments)[soff(c.compartments) + c.offset] && len(c.compartments) - c.offset == 1
+//@   loop 0 invariant c.offset <= i && i <= len(c.compartments) && c.compartments == old(c.compartments) && c.offset == old(c.offset)
+//@   loop 0 invariant elems(c.compartments) == old(elems(c.compartments)) && fresh(newBuf) && len(newBuf) == old(clen(c))
+//@   loop 0 invariant len(copyBuf) == sumRow(elems(c.compartments), soff(c.compartments) + i, soff(c.compartments) + len(c.compartments)) && len(copyBuf) == cap(copyBuf)
+//@   loop 0 use L-sum-front(elems(c.compartments), soff(c.compartments) + i, soff(c.compartments) + len(c.compartments))
+//@   loop 0 decreases len(c.compartments) - i
+//@   at return use L-sum-top(elems(c.compartments), soff(c.compartments) + c.offset, soff(c.compartments) + c.offset + 1)
+//@   at return use L-sum-empty(elems(c.compartments), soff(c.compartments) + c.offset, soff(c.compartments) + c.offset)
+//@   at return use L-sum-top(old(elems(c.compartments)), old(soff(c.compartments) + c.offset), old(soff(c.compartments) + c.offset) + 1)
+//@   at return use L-sum-empty(old(elems(c.compartments)), old(soff(c.compartments) + c.offset), old(soff(c.compartments) + c.offset))
+
+//@ func (*Container).WriteToSlice
+//@   requires wf(c)
+//@   assume bounded(c)
+//@   modifies c.offset, elems(c.compartments), elems(slice)
+//@   ghost var row0 ~[]byte = elems(c.compartments)
+//@   ensures wf(c)
+//@   ensures len(slice) <= old(clen(c)) ==> n == len(slice) && clen(c) == old(clen(c)) - len(slice)
+//@   ensures len(slice) > old(clen(c)) ==> n == old(clen(c)) && clen(c) == 0
+//@   ensures containerEmptied ==> clen(c) == 0
+//@   loop 0 invariant old(c.offset) <= i && i <= len(c.compartments) && n >= 0 && c.offset == i && len(slice) == old(len(slice)) - n
+//@   loop 0 invariant forall k int :: soff(c.compartments) <= k && k < soff(c.compartments) + i ==> len(elems(c.compartments)[k]) == 0
+//@   loop 0 invariant forall k int :: soff(c.compartments) + i <= k && k < soff(c.compartments) + len(c.compartments) ==> elems(c.compartments)[k] == row0[k]
+//@   loop 0 invariant sumRow(row0, soff(c.compartments) + old(c.offset), soff(c.compartments) + i) == n
+//@   loop 0 use L-sum-empty(row0, soff(c.compartments) + old(c.offset), soff(c.compartments) + old(c.offset))
+//@   loop 0 use L-sum-top(row0, soff(c.compartments) + old(c.offset), soff(c.compartments) + i + 1)
+//@   loop 0 use L-sum-split(row0, soff(c.compartments) + old(c.offset), soff(c.compartments) + i + 1, soff(c.compartments) + len(c.compartments))
+//@   loop 0 use L-sum-split(row0, soff(c.compartments) + old(c.offset), soff(c.compartments) + i, soff(c.compartments) + len(c.compartments))
+//@   loop 0 use L-sum-front(row0, soff(c.compartments) + i, soff(c.compartments) + len(c.compartments))
+//@   loop 0 use L-sum-empty(row0, soff(c.compartments) + i, soff(c.compartments) + len(c.compartments))
+//@   loop 0 decreases len(c.compartments) - i
+//@   at return#0 assert forall k int :: soff(c.compartments) + c.offset <= k && k < soff(c.compartments) + len(c.compartments) ==> len(elems(c.compartments)[k]) == 0
+//@   at return#0 use L-sum-zero(elems(c.compartments), soff(c.compartments) + c.offset, soff(c.compartments) + len(c.compartments))
+//@   at return#0 assert clen(c) == 0 && old(clen(c)) == n
+//@   at return#1 assert c.offset == i
+//@   at return#1 assert forall k int :: soff(c.compartments) + i + 1 <= k && k < soff(c.compartments) + len(c.compartments) ==> len(elems(c.compartments)[k]) == len(row0[k + ((soff(c.compartments) + i + 1) - (soff(c.compartments) + i + 1))])
+//@   at return#1 use L-sum-shift(elems(c.compartments), row0, soff(c.compartments) + i + 1, soff(c.compartments) + i + 1, soff(c.compartments) + len(c.compartments), soff(c.compartments) + len(c.compartments))
+//@   at return#1 assert sumRow(elems(c.compartments), soff(c.compartments) + i + 1, soff(c.compartments) + len(c.compartments)) == sumRow(row0, soff(c.compartments) + i + 1, soff(c.compartments) + len(c.compartments))
+//@   at return#1 use L-sum-front(elems(c.compartments), soff(c.compartments) + i, soff(c.compartments) + len(c.compartments))
+//@   at return#1 assert clen(c) == old(clen(c)) - old(len(slice)) && n == old(len(slice))
